@@ -201,7 +201,7 @@ def build_goto(work, spec, cover):
         # a harness that calls a /repo function without a prototype gets an int-returning implicit declaration: pointers come back truncated
         # and the harness is silently vacuous (seen once: parse_attributes).  gcc decides; CBMC-only identifiers are declared for it.
         r = run(['gcc', '-fsyntax-only', '-Werror=implicit-function-declaration', '-Werror=int-conversion', '-D__CPROVER_assume(x)=(void)(x)',
-                 '-D__CPROVER_assert(x,y)=(void)(x)', h] + cflags(work, spec, hextra), timeout=300)
+                 '-D__CPROVER_assert(x,y)=(void)(x)', '-D__CPROVER_same_object(x,y)=((x)==(y))', '-D__CPROVER_POINTER_OFFSET(x)=((size_t)(x))', h] + cflags(work, spec, hextra), timeout=300)
         if r['rc'] != 0 and ('implicit declaration' in r['err'] or 'int-conversion' in r['err']):
             raise Fail('harness %s uses an undeclared function: %s' % (spec['src'], '\n'.join(l for l in r['err'].splitlines() if 'error' in l)[:800]))
     must(run(['goto-cc', '-c', h, '-o', ho] + cflags(work, spec, hextra), timeout=600), 'goto-cc harness ' + spec['src'])
